@@ -150,7 +150,7 @@ func readSub(r *ev.Run, name string) {
 			r.Violate(ev.Violation{Signature: res.sig, Sub: name, Message: res.msg, Case: c})
 		}
 		if sub.Evaluations%3001 == 17 {
-			r.Sample(map[string]any{"sub": name, "case": c, "outcome": res.outcome})
+			sample(r, name, map[string]any{"sub": name, "case": c, "outcome": res.outcome})
 		}
 	}
 	for _, content := range [][]byte{{}, []byte("a"), []byte("abc"), []byte("abcde")} {
